@@ -6,6 +6,7 @@ CONSTANT BinDomains <- None
 CONSTANT BfsDomains <- None
 CONSTANT NavDomains <- QNav
 INVARIANT OracleInv
+INVARIANT FastOracleInv
 INVARIANT DjRowsDoneInv
 INVARIANT DjWhileInv
 INVARIANT DjFinalInv
